@@ -46,20 +46,23 @@ MixAndSplit(mm, ins, top, bot, split) ==
   IN [mm EXCEPT ![top] = t, ![bot] = [i \in Chems |-> tot[i] - t[i]]]
 PhaseSplit(mm, outs) == [mm EXCEPT ![outs[1]] = mm["msg"], ![outs[2]] = mm["msl"]]
 
-\* C20 speaks of non-negative feeds
-InOK(s, q) == Range(q) \subseteq Slots /\ NonNegS(s.m, q)
+\* C20 speaks of non-negative feeds; Bound keeps sums inside TLC's 32-bit integers (recorded flows are clipped beyond it)
+Bound == 100000000
+InOK(s, q) == Range(q) \subseteq Slots /\ NonNegS(s.m, q) /\ \A k \in DOMAIN q, i \in Chems : s.m[q[k]][i] <= Bound
 Pre(s, op, a) ==
   CASE op = "mix_and_split" -> /\ InOK(s, a.ins) /\ {a.top, a.bot} \subseteq Slots /\ a.top # a.bot
                                /\ a.bot \notin Range(a.ins)
                                /\ \A i \in Chems : ~RLt(a.split[i], Zero) /\ ~RLt(One, a.split[i])
     [] op = "phase_split" -> Len(a.outs) = 2 /\ Range(a.outs) \subseteq Slots \ {"msg", "msl"} /\ a.outs[1] # a.outs[2] /\ InOK(s, <<"msg", "msl">>)
     \* a.enough: the two streams hold the water the requested moisture fraction needs (C20: "with sufficient water")
-    [] op = "moisture" -> InOK(s, <<a.ret, a.perm>>) /\ a.enough
+    [] op = "moisture" -> InOK(s, <<a.ret, a.perm>>) /\ a.enough /\ a.plain
     \* a feed that holds some of the partitioning chemicals
-    [] op = "partition" -> InOK(s, <<a.feed>>) /\ (\E k \in DOMAIN a.ids : s.m[a.feed][a.ids[k]] > 0) /\ Cardinality({a.feed, a.top, a.bot}) = 3
-    [] op \in {"sep_vle", "sep_lle"} -> InOK(s, <<a.feed>>) /\ (\E i \in Chems : s.m[a.feed][i] > 0)
+    [] op = "partition" -> InOK(s, <<a.feed>>) /\ (\E k \in DOMAIN a.ids : s.m[a.feed][a.ids[k]] > 0) /\ Cardinality({a.feed, a.top, a.bot}) = 3 /\ a.plain
+    [] op \in {"sep_vle", "sep_lle"} -> InOK(s, <<a.feed>>) /\ (\E i \in Chems : s.m[a.feed][i] > 0) /\ a.plain
     [] op = "chemical_splits" -> InOK(s, <<a.a, a.b>>)
-    [] op = "material_balance" -> InOK(s, a.var \o a.cin \o a.cout)
+    \* every variable inlet holds some of the chosen chemicals (an empty inlet makes the system singular)
+    [] op = "material_balance" -> InOK(s, a.var \o a.cin \o a.cout) /\ a.plain
+                                  /\ \A k \in DOMAIN a.var : \E j \in DOMAIN a.ids : s.m[a.var[k]][a.ids[j]] > 1000
     [] op = "feed" -> TRUE
     [] OTHER -> FALSE
 Post(s, op, a) ==
